@@ -18,7 +18,11 @@ use serde_json::{json, Value};
 
 use crate::explore::{self, Bounds, DfsCfg, Exec, Point, Stats, Stop, Visit};
 
-pub const VERIF_ROOT: &str = "/verif";
+/// Root of the verification tree: `/verif`, or `$VERIF_ROOT` for an isolated copy (used
+/// by `tools/seed_matrix.py`, which must not disturb the real evidence files).
+pub fn verif_root() -> PathBuf {
+	PathBuf::from(std::env::var("VERIF_ROOT").unwrap_or_else(|_| "/verif".to_string()))
+}
 
 #[derive(Clone, Copy, PartialEq, Eq, Debug, Serialize, Deserialize)]
 pub enum Tier {
@@ -402,7 +406,7 @@ pub struct KnownFinding {
 }
 
 pub fn load_known(property: &str) -> Vec<KnownFinding> {
-	let p = Path::new(VERIF_ROOT).join("known_findings.json");
+	let p = verif_root().join("known_findings.json");
 	let Ok(s) = std::fs::read_to_string(&p) else { return vec![] };
 	let k: KnownFile = match serde_json::from_str(&s) {
 		Ok(k) => k,
@@ -436,7 +440,7 @@ pub fn finish(r: Report) -> i32 {
 	let known = load_known(&r.property);
 	let mut unlisted = 0;
 	let mut listed = 0;
-	let rdir = Path::new(VERIF_ROOT).join("replays").join(&r.property);
+	let rdir = verif_root().join("replays").join(&r.property);
 	for v in &r.violations {
 		if let Some(k) = known.iter().find(|k| k.key == v.key) {
 			println!("KNOWN-FINDING: property={} {} — {} ({} executions)", r.property, v.key, k.what, v.count);
@@ -465,7 +469,7 @@ pub fn finish(r: Report) -> i32 {
 		"wall_s": r.wall_s,
 		"violations": unlisted,
 	});
-	let edir = Path::new(VERIF_ROOT).join("evidence");
+	let edir = verif_root().join("evidence");
 	std::fs::create_dir_all(&edir).ok();
 	let path = edir.join(format!("{}.json", r.property));
 	let tmp = edir.join(format!("{}.json.tmp", r.property));
@@ -492,7 +496,7 @@ pub fn finish(r: Report) -> i32 {
 pub fn orchestrate(harness_name: &str, property: &str, args: &Args, extra_args: &[String]) -> (WorkerResult, Vec<String>) {
 	let t0 = Instant::now();
 	let exe = std::env::current_exe().expect("current exe");
-	let work = Path::new(VERIF_ROOT).join("work").join(format!("{property}-{}", std::process::id()));
+	let work = verif_root().join("work").join(format!("{property}-{}", std::process::id()));
 	std::fs::create_dir_all(&work).expect("work dir");
 	let n = args.workers.max(1);
 	let mut kids = vec![];
